@@ -21,9 +21,10 @@ import (
 )
 
 type Ctx struct {
-	P    *load.Program
-	R    *rep.Report
-	Tier string
+	P     *load.Program
+	R     *rep.Report
+	Tier  string
+	Verif string // /verif root (triage.json)
 }
 
 type propFunc func(*Ctx)
@@ -55,6 +56,7 @@ type cache struct {
 	schErr  error
 	graph   *an.Graph
 	gOnce   sync.Once
+	pf      *popFacts
 }
 
 var caches sync.Map // *load.Program -> *cache
